@@ -1,54 +1,99 @@
 //! Verification model of hashlink::LinkedHashMap (subset used by worterbuch's aggregator):
-//! an insertion-ordered association list.
+//! an insertion-ordered association list of at most CAP entries in literal slots (no Vec: a value that
+//! travelled through a Vec's byte buffer is no longer concrete for CBMC - measured on `json!(value)` of a
+//! drained entry, which then explored the Object/Array arms of the serializer until memory ran out).
+//! More than CAP distinct keys: the path is pruned (`assume(false)`), stated as a bound of the harness.
+pub const CAP: usize = 2;
 pub struct LinkedHashMap<K, V> {
-    items: Vec<(K, V)>,
+    s0: Option<(K, V)>,
+    s1: Option<(K, V)>,
 }
 impl<K, V> Default for LinkedHashMap<K, V> {
     fn default() -> Self {
-        LinkedHashMap { items: Vec::new() }
+        LinkedHashMap { s0: None, s1: None }
     }
+}
+fn over_capacity() -> ! {
+    #[cfg(kani)]
+    kani::assume(false);
+    panic!("hashlink model: more than CAP entries")
 }
 impl<K: Eq, V> LinkedHashMap<K, V> {
     pub fn new() -> Self {
         Self::default()
     }
     pub fn len(&self) -> usize {
-        self.items.len()
+        (self.s0.is_some() as usize) + (self.s1.is_some() as usize)
     }
     pub fn is_empty(&self) -> bool {
-        self.items.is_empty()
+        self.s0.is_none()
     }
     pub fn contains_key<Q: ?Sized + Eq>(&self, k: &Q) -> bool
     where
         K: core::borrow::Borrow<Q>,
     {
-        let mut i = 0;
-        while i < self.items.len() {
-            if self.items[i].0.borrow() == k {
+        if let Some((k0, _)) = &self.s0 {
+            if k0.borrow() == k {
                 return true;
             }
-            i += 1;
+        }
+        if let Some((k1, _)) = &self.s1 {
+            if k1.borrow() == k {
+                return true;
+            }
         }
         false
     }
-    /// insert; an existing key keeps its position? No: hashlink moves a re-inserted key to the back.
+    /// hashlink moves a re-inserted key to the back and returns the old value
     pub fn insert(&mut self, k: K, v: V) -> Option<V> {
-        let mut i = 0;
-        while i < self.items.len() {
-            if self.items[i].0 == k {
-                let (_, old) = self.items.remove(i);
-                self.items.push((k, v));
-                return Some(old);
+        let in0 = matches!(&self.s0, Some((k0, _)) if *k0 == k);
+        if in0 {
+            let old = self.s0.take();
+            self.s0 = self.s1.take();
+            if self.s0.is_none() {
+                self.s0 = Some((k, v));
+            } else {
+                self.s1 = Some((k, v));
             }
-            i += 1;
+            return old.map(|(_, o)| o);
         }
-        self.items.push((k, v));
+        let in1 = matches!(&self.s1, Some((k1, _)) if *k1 == k);
+        if in1 {
+            let old = self.s1.take();
+            self.s1 = Some((k, v));
+            return old.map(|(_, o)| o);
+        }
+        if self.s0.is_none() {
+            self.s0 = Some((k, v));
+        } else if self.s1.is_none() {
+            self.s1 = Some((k, v));
+        } else {
+            over_capacity()
+        }
         None
     }
-    pub fn drain(&mut self) -> std::vec::IntoIter<(K, V)> {
-        core::mem::take(&mut self.items).into_iter()
+    pub fn drain(&mut self) -> Drain<K, V> {
+        Drain { s0: self.s0.take(), s1: self.s1.take() }
     }
     pub fn iter(&self) -> impl Iterator<Item = (&K, &V)> {
-        self.items.iter().map(|(k, v)| (k, v))
+        self.s0.iter().chain(self.s1.iter()).map(|(k, v)| (k, v))
+    }
+}
+/// own iterator type (not `vec::IntoIter`, whose `.map(..).collect()` takes std's in-place specialisation)
+pub struct Drain<K, V> {
+    s0: Option<(K, V)>,
+    s1: Option<(K, V)>,
+}
+impl<K, V> Iterator for Drain<K, V> {
+    type Item = (K, V);
+    fn next(&mut self) -> Option<(K, V)> {
+        if let Some(kv) = self.s0.take() {
+            return Some(kv);
+        }
+        self.s1.take()
+    }
+    fn size_hint(&self) -> (usize, Option<usize>) {
+        let n = (self.s0.is_some() as usize) + (self.s1.is_some() as usize);
+        (n, Some(n))
     }
 }
